@@ -407,6 +407,15 @@ Section AddForestSound.
     apply (region_admissible A sem sem_proper Htr F Hpw Fcl Hcl Hcl_type Hacc g r p q e ef Hadm addforest_region_facts Hev).
     intros n u v Hn _. cbn [r forest_region r_es] in Hn. now apply fa_rank.
   Qed.
+  Lemma addforest_frame :
+    (exists ef', evalg (tg_nodes (apply_forest g f)) e = Some ef' /\
+       forall x w, ef' x = Some w -> exists v, ef x = Some v /\ (In x (map out_of (f_es f)) \/ teq v w)) /\
+    (forall n y, In n (tg_nodes (apply_forest g f)) -> In y (n_outs n) -> In y (map out_of (f_es f)) -> is_elem n = true /\ n_caps n = []) /\
+    (forall y, In y (map out_of (f_es f)) -> In y (defs (tg_nodes (apply_forest g f)))).
+  Proof.
+    apply (region_frame A sem sem_proper Htr F Hpw Fcl Hcl Hcl_type Hacc g r p q e ef Hadm addforest_region_facts Hev).
+    intros n u v Hn _. cbn [r forest_region r_es] in Hn. now apply fa_rank.
+  Qed.
 End AddForestSound.
 
 (* ---- the pass, for every graph that is admissible when the pass starts *)
@@ -445,6 +454,17 @@ Section AddForestPass.
     destruct (first_some (decide_addforest g) (tg_nodes g)) as [f|] eqn:Efs; [|discriminate]. injection Hstep as <-.
     apply first_some_spec in Efs as (start & Hstart & Hd). destruct (decide_addforest_facts g start f Hstart Hd) as (p & q & Hfa).
     exact (addforest_admissible A sem sem_proper Htr F Hpw Fcl Hcl Hcl_type Hacc g f p q e ef Hfa Hadm Hev).
+  Qed.
+
+  Theorem addforest_step_frame g f e ef : tadmissible A sem g e -> evalg (tg_nodes g) e = Some ef ->
+    first_some (decide_addforest g) (tg_nodes g) = Some f ->
+    (exists ef', evalg (tg_nodes (apply_forest g f)) e = Some ef' /\
+       forall x w, ef' x = Some w -> exists v, ef x = Some v /\ (In x (map out_of (f_es f)) \/ teq v w)) /\
+    (forall n y, In n (tg_nodes (apply_forest g f)) -> In y (n_outs n) -> In y (map out_of (f_es f)) -> is_elem n = true /\ n_caps n = []) /\
+    (forall y, In y (map out_of (f_es f)) -> In y (defs (tg_nodes (apply_forest g f)))).
+  Proof.
+    intros Hadm Hev Efs. apply first_some_spec in Efs as (start & Hstart & Hd). destruct (decide_addforest_facts g start f Hstart Hd) as (p & q & Hfa).
+    exact (addforest_frame A sem sem_proper Htr F Hpw Fcl Hcl Hcl_type Hacc g f p q e ef Hfa Hadm Hev).
   Qed.
 
   Theorem addforest_pass_sound : forall fuel g e, tadmissible A sem g e ->
